@@ -226,6 +226,13 @@ func prefixOf(a, b []*gripql.GraphStatement) bool {
 // C11 runs the check.
 func C11(tier string) int {
 	run := vf.NewRun("C11", tier, "model_checking")
+	c11Body(run, tier)
+	return run.Finish()
+}
+
+// c11Body is the history/program part of the check (unscheduled real code); the
+// scheduler build adds the completion/restart/delete interleavings (sched_c11.go).
+func c11Body(run *vf.Run, tier string) {
 	thorough := tier == "thorough"
 	defer os.RemoveAll(harnessWorkDir())
 	evals := 0
@@ -531,7 +538,6 @@ func C11(tier string) int {
 		"completion is awaited by polling GetJob with a 60 s deadline; the Spool/Status race itself is C17's business",
 		"search oracle: jobs on that graph, not deleted, with at least two statements that are a prefix (statement-wise equal) of the searched traversal",
 	}
-	return run.Finish()
 }
 
 func sJobGraph(hist []c11Op, j int) string {
